@@ -656,7 +656,11 @@ def record_runs(exprs_with_asg):
     from ahbicht.expressions import InvalidExpressionError
     from ahbicht.expressions.requirement_constraint_expression_evaluation import requirement_constraint_evaluation
     sink = []
-    install_tracer(sink)
+    try:
+        install_tracer(sink)
+    except Exception:  # pylint:disable=broad-except
+        # the transformer is no longer a class that can be subclassed and rebound (a refactoring): recording is not possible, nothing is claimed
+        return []
     traces = []
 
     async def go():
@@ -699,6 +703,9 @@ def trace_validation(res: Result, work: Work, n_random=600, max_leaves=25):
     traces = record_runs(cases)
     usable = [t for t in traces if t["events"] and in_generator_domain(t["events"])]
     res.coverage["traces_recorded"] = len(traces)
+    if not usable:
+        res.coverage["callback_tracing"] = "not available for this code (transformer callbacks could not be recorded)"
+        return traces
     res.coverage["traces_outside_generator_domain_skipped"] = len(traces) - len(usable)
     res.coverage["unittest_literals_traced"] = len(lits)
     slim = [{"id": t["id"], "asg": t["asg"], "events": t["events"]} for t in usable]
